@@ -13,6 +13,7 @@ pub mod c08;
 pub mod c09;
 pub mod c10;
 pub mod c10_handover;
+pub mod c10_softstop;
 pub mod c11;
 pub mod c12;
 pub mod c13;
